@@ -611,6 +611,9 @@ err_out: /* Error. */
 	}
 	error = SKT_ERR_FILTER(error);
 	if (0 == error) {
+		if (NULL == cb_code_ret &&
+		    0 != (TP_F_ONESHOT & tptask->event_flags))
+			goto call_cb; /* Event is gone and will not be re-armed: report now. */
 		tptask->tot_transfered_size += transfered_size; /* Save transfered_size. */
 		cb_ret = TP_TASK_CB_CONTINUE;
 		goto call_cb_handle;
